@@ -42,17 +42,18 @@ var seq atomic.Int64
 func NextSeq() int64 { return seq.Add(1) }
 
 type Conn struct {
-	rx      chan Datagram
-	closed  chan struct{}
-	once    sync.Once
-	start   time.Time
-	mu      sync.Mutex
-	events  []Event
-	writes  []Write
-	reads   int
-	OnWrite func(w Write)         // called synchronously inside WriteTo (after recording)
-	ReadErr func(k int) error     // if non-nil and returns an error for read #k, ReadFrom fails with it
-	Delay   func(point string)    // optional delay injection ("rx.before", "rx.after", "tx.before", "tx.after")
+	rx       chan Datagram
+	closed   chan struct{}
+	once     sync.Once
+	start    time.Time
+	mu       sync.Mutex
+	events   []Event
+	writes   []Write
+	reads    int
+	readCond *sync.Cond
+	OnWrite  func(w Write)      // called synchronously inside WriteTo (after recording)
+	ReadErr  func(k int) error  // if non-nil and returns an error for read #k, ReadFrom fails with it
+	Delay    func(point string) // optional delay injection ("rx.before", "rx.after", "tx.before", "tx.after")
 	WriteErr func(k int) error
 }
 
@@ -94,6 +95,9 @@ func (c *Conn) ReadFrom(b []byte) (int, net.Addr, error) {
 	c.mu.Lock()
 	k := c.reads
 	c.reads++
+	if c.readCond != nil {
+		c.readCond.Broadcast()
+	}
 	c.mu.Unlock()
 	c.log(Event{Kind: "rx.invoke", K: k})
 	if c.ReadErr != nil {
@@ -148,10 +152,43 @@ func (c *Conn) WriteTo(b []byte, addr net.Addr) (int, error) {
 	return len(b), nil
 }
 
+// Reads returns how many times ReadFrom has been invoked.
+func (c *Conn) Reads() int {
+	c.mu.Lock()
+	defer c.mu.Unlock()
+	return c.reads
+}
+
+// WaitReads blocks until ReadFrom has been invoked at least n times (or the conn is closed).
+func (c *Conn) WaitReads(n int) {
+	c.mu.Lock()
+	if c.readCond == nil {
+		c.readCond = sync.NewCond(&c.mu)
+	}
+	for c.reads < n && !c.isClosedLocked() {
+		c.readCond.Wait()
+	}
+	c.mu.Unlock()
+}
+
+func (c *Conn) isClosedLocked() bool {
+	select {
+	case <-c.closed:
+		return true
+	default:
+		return false
+	}
+}
+
 func (c *Conn) Close() error {
 	c.once.Do(func() {
 		c.log(Event{Kind: "close"})
 		close(c.closed)
+		c.mu.Lock()
+		if c.readCond != nil {
+			c.readCond.Broadcast()
+		}
+		c.mu.Unlock()
 	})
 	return nil
 }
